@@ -152,8 +152,15 @@ Inductive replay_res :=
 Definition bump_lsn (s : store) (lsn : N) : store :=
   if N.leb (nextLSN s) lsn then mkStore (forest s) (lastKey s) (ptRoot s) (nextFree s) (lsn + 1) else s.
 
+(* the row-id counter is raised for every insert record, before the skip test *)
+Definition bump_key (s : store) (w : walentry) : store :=
+  match w_op w with
+  | OpInsert => mkStore (forest s) (N.max (lastKey s) (w_cell w)) (ptRoot s) (nextFree s) (nextLSN s)
+  | _ => s
+  end.
+
 Definition replay_one (s0 : store) (w : walentry) : replay_res :=
-  let s := bump_lsn s0 (w_lsn w) in
+  let s := bump_key (bump_lsn s0 (w_lsn w)) w in
   match find_node (w_page w) (forest s) with
   | None => RFail s ECorrupt
   | Some (isroot, n) =>
